@@ -126,6 +126,9 @@ def build_node(
         def class_method(*args: t.Any, **kwargs: t.Any) -> t.Any:
             return process_method(*args, **kwargs, **(dependencies_default or {}))
 
+    # The new method stands for the method of the basic node, so it keeps its documentation
+    class_method.__doc__ = process_method.__doc__
+
     class_name = class_name or f'Generic{node.__name__}'
     created_node = type(
         class_name,
